@@ -71,6 +71,12 @@ def build_harness(workdir):
             p = run([os.path.join(BUILD, "clockrewrite"), src, dst])
             replace[src] = dst
             rewritten[rel] = p.stdout.strip().split(": ")[-1]
+    # registry of every Parse* function, regenerated from the source
+    reg = os.path.join(rw, "zz_parsers_registry.go")
+    pr = run([os.path.join(BUILD, "parsers"), REPO, os.path.join(rw, "Parsers.lean"), os.path.join(rw, "ParsersSafe.lean"), reg],
+             check=False)
+    if pr.returncode == 0:
+        replace[os.path.join(REPO, "cmd", "verif-drv", "zz_parsers_registry.go")] = reg
     ov = os.path.join(workdir, "overlay.json")
     with open(ov, "w") as fh:
         json.dump({"Replace": replace}, fh)
